@@ -204,6 +204,15 @@ func genC13(r *Rng, tier string) []Case {
 		}
 		one(m)
 	}
+	// inputs that end inside a 1/2/4/8-byte integer head (top level, in an array, as a map value)
+	for _, h := range [][]byte{{0x18, 0x20}, {0x19, 0x01, 0x00}, {0x1a, 0x00, 0x01, 0x00, 0x00}, {0x1b, 0, 0, 0, 1, 0, 0, 0, 0}, {0x39, 0x01, 0x00}, {0x59, 0x01, 0x00}, {0x99, 0x01, 0x00}} {
+		for cut := 1; cut < len(h); cut++ {
+			t := h[:cut]
+			one(t)
+			one(append([]byte{0x82, 0x01}, t...))
+			one(append([]byte{0xa1, 0x61, 0x61}, t...))
+		}
+	}
 	// a byte / text string of every length class as the last thing of the input (top level, last array
 	// element, last map value), complete, with 1 or 2 final bytes missing, and with one extra byte
 	for _, n := range []int{0, 1, 22, 23, 24, 25, 100, 255, 256, 257, 1000} {
